@@ -446,3 +446,36 @@ def gen_failready(rng, algo, gen='G-sim-failready'):
     arrivals.sort(key=lambda x: x[0])
     return dict(gen=gen, algo=algo, tps=tps, over=1 if algo == 'overbook' else 0, multi=0, npools=npools, cpu=cpu,
                 ram=ram, duration=nticks / tps, pipes=pipes, segs=segs, arrivals=arrivals)
+
+
+def gen_ppool_stuck(rng, gen='G-sim-ppool-stuck'):
+    """priority-pool with pool 0 filled exactly: nq queries that all run out of memory in the same tick, 9 - nq
+    interactive multi-operator pipelines of which the first fails at once and comes back with a doubled allocation
+    that takes the last slot; when the queries fail only some of their retries fit, the others wait in the queue
+    while interactive containers pass their operator boundaries"""
+    tps = rng.choice([10, 20, 100])
+    ram = rng.choice([50, 100])
+    share = ram / 10.0
+    nq = rng.choice([3, 4, 5])
+    ni = 9 - nq
+    pipes, segs, arrivals = [], [], []
+    for _ in range(nq):
+        pipes.append((1, [[]]))
+        segs.append([[dict(baseline_cpu_seconds=0.5, cpu_scaling='const', storage_read_gb=1.5 * share)]])
+    for i in range(ni):
+        n = rng.choice([2, 3, 3])
+        pipes.append((2, [[j - 1] if j else [] for j in range(n)]))
+        segs.append([[dict(baseline_cpu_seconds=round(0.6 + 0.05 * i + 0.1 * rng.randrange(3), 2), cpu_scaling='const',
+                           storage_read_gb=0.0, memory_gb=float(1.2 * share if (i == 0 and k == 0) else share / 10.0))]
+                     for k in range(n)])
+    for _ in range(rng.randint(1, 3)):
+        pipes.append((3, [[], [0]]))
+        segs.append([[dict(baseline_cpu_seconds=0.7, cpu_scaling='const', storage_read_gb=0.0, memory_gb=share / 5.0)]
+                     for _ in range(2)])
+    arrivals = [(0, k) for k in range(len(pipes))]
+    if rng.random() < 0.3:                         # a late query as well
+        pipes.append((1, [[]]))
+        segs.append([[dict(baseline_cpu_seconds=0.3, cpu_scaling='const', storage_read_gb=0.0, memory_gb=share / 10.0)]])
+        arrivals.append((rng.randint(1, 3 * tps), len(pipes) - 1))
+    return dict(gen=gen, algo='priority-pool', tps=tps, over=0, multi=1, npools=2, cpu=10, ram=ram,
+                duration=rng.choice([4, 6]), pipes=pipes, segs=segs, arrivals=arrivals)
